@@ -91,7 +91,7 @@ def r2_uniform_choice(ctx, rule):
             ok = False
             ctx.bad(rule, HG, '%s branch loops over %s' % (key, [U(getattr(l, 'iter', l.test)) for l in loops]), 'exactly one value of '
                     'the group is drawn', facts, loops[0])
-        if len(choices) != 1 or U(choices[0].args[0]) != c04.GROUP_VALUES:
+        if len(choices) != 1 or not c04.is_group_values(ctx.fn(HG), choices[0].args[0]):
             ok = False
             ctx.bad(rule, HG, '%s branch draws %s' % (key, facts['choices']), "the value must be drawn uniformly from the whole "
                     "group grammar[type][index]['values']", facts, node)
